@@ -72,7 +72,7 @@ func (fd *FuncDoc) keyParam(start int, name string) bool {
 
 func (fd *FuncDoc) getArg(name string) *DocArg {
 	for _, a := range fd.Args {
-		if a.Name == name {
+		if strings.EqualFold(a.Name, name) {
 			return a
 		}
 	}
